@@ -8,9 +8,10 @@
      SQ s    helpers.QuoteForJSON(s, asciiOnly)
      SR s    a string literal of a format string (DQUOTE s DQUOTE), also a
              final path substituted for a unique key
-     SF k i  the unique key of asset (k=1) / chunk (k=2) number i inside
-             quotation marks; [rf] says what stands there (the key itself before
-             substituteFinalPaths, the final path after it)
+     SF k i  the place of the unique key of asset (k=1) / chunk (k=2) number i;
+             [rq k i] is the string token standing there: QuoteForJSON of the
+             key before substituteFinalPaths, the final path between quotation
+             marks after it
    [render] is the byte string.  Which tree the linker and the bundler build
    is in Doc.v.  Executable definitions only. *)
 From V Require Import Common.Base C19.Json.
@@ -38,13 +39,13 @@ Definition lit_true_bytes : bytes := [116; 114; 117; 101].
 
 Section Render.
   Variable ascii : bool.
-  Variable rf : Z -> Z -> bytes.
+  Variable rq : Z -> Z -> bytes.
 
   Definition render_ls (x : ls) : bytes :=
     match x with
     | SQ s => quote_for_json ascii s
     | SR s => 34 :: s ++ [34]
-    | SF k i => 34 :: rf k i ++ [34]
+    | SF k i => rq k i
     end.
 
   Fixpoint render (t : lj) : bytes :=
